@@ -9,7 +9,9 @@ Import ListNotations.
 
 Record fdecl := { f_name : name; f_private : bool; f_ann : ty; f_default : bool; f_factory : bool }.
 Inductive dkind := DDataclass | DEnum | DPlain.
-Record decl := { d_name : name; d_kind : dkind; d_bases : list name; d_fields : list fdecl }.
+(* d_hidden: names the module of this class cannot see at run time (imported under `if TYPE_CHECKING:` only);
+   the Spec does not read it: a forward reference names its class whatever the import style *)
+Record decl := { d_name : name; d_kind : dkind; d_bases : list name; d_fields : list fdecl; d_hidden : list name }.
 Definition prog := list decl.
 
 Inductive ekind := EInh | EAssoc.
@@ -105,7 +107,8 @@ Definition wf_prog (p : prog) : bool :=
   && forallb (fun f => wf_field f && leaf_ok p (f_ann f)) (all_fields p)
   && forallb (fun d => forallb (fun b => match find_decl p b with
                                           | Some d' => match d_kind d' with DDataclass => true | _ => false end
-                                          | None => false end) (d_bases d)) p.
+                                          | None => false end) (d_bases d)) p
+  && forallb (fun d => match d_hidden d with [] => true | _ => false end) p.   (* every name is importable at run time *)
 Definition wf_classes (p : prog) (cs : list name) : bool :=
   nodupb cs &&
   forallb (fun c => match find_decl p c with Some d => match d_kind d with DDataclass => true | _ => false end | None => false end) cs.
